@@ -53,7 +53,7 @@ struct Res {
 enum { V_NV = 5 };
 struct FStat {
   long long tuples, cases, noerr, err, d1[V_NV], d2[V_NV], d1_inf, d2_inf, nan_value_with_deriv_error,
-            calls, fd_evals, space;
+            calls, fd_evals, space, crashed;
   unsigned long long cls;     // observation classes: bit (mode*5 + outcome), 15 + verdict (d1), 21 + verdict (d2)
 };
 enum { O_ERR = 0, O_DERR = 1, O_HERR = 2, O_VALUE = 3, O_INF = 4, C_D1 = 15, C_D2 = 21, C_INF = 5 };
@@ -61,7 +61,7 @@ struct Shm {                 // case in flight, visible to the parent after a cr
   volatile long long tuple; volatile int mode; volatile int cfg; volatile int n; volatile int stage;
   double x[MAXN]; volatile long long calls;
   volatile int ip[MAXN]; volatile int probe_pos;      // integer-only positions found by the probe child
-  FStat st;
+  FStat st, snap;      // snap = st at the start of the tuple in flight (restored when the child dies)
 };
 static Shm* SHM;
 
@@ -460,10 +460,12 @@ static void emit_function(const Fn& f, int n) {
   for (int i = 0; i < n; ++i) if (SHM->ip[i]) ips += (ips.empty() ? "" : ",") + std::to_string(i);
   std::printf("{\"type\":\"func\",\"name\":\"%s\",\"arity\":%d,\"nargs\":%d,\"random\":%d,\"int_pos\":[%s],\"space\":%lld,"
               "\"tuples\":%lld,\"cases\":%lld,\"noerr\":%lld,\"err\":%lld,\"d1_judged\":%lld,\"d2_judged\":%lld,"
-              "\"d1_unstable\":%lld,\"d2_unstable\":%lld}\n",
+              "\"d1_unstable\":%lld,\"d2_unstable\":%lld,\"crashed\":%lld}\n",
               f.name.c_str(), n, f.nargs, f.type == FUNCADD_RANDOM_VALUED, ips.c_str(), st.space, st.tuples, st.cases,
               st.noerr, st.err, st.d1[V_OK] + st.d1[V_MISMATCH], st.d2[V_OK] + st.d2[V_MISMATCH],
-              st.d1[V_UNSTABLE] + st.d1[V_MARGINAL] + st.d1[V_KINK], st.d2[V_UNSTABLE] + st.d2[V_MARGINAL] + st.d2[V_KINK]);
+              st.d1[V_UNSTABLE] + st.d1[V_MARGINAL] + st.d1[V_KINK], st.d2[V_UNSTABLE] + st.d2[V_MARGINAL] + st.d2[V_KINK],
+              st.crashed);
+  R.stat("tuples_ending_in_abnormal_termination", st.crashed);
   R.stat("tuples", st.tuples); R.stat("cases", st.cases); R.stat("cases_no_error", st.noerr);
   R.stat("cases_error", st.err); R.stat("binding_calls", st.calls); R.stat("fd_evaluations", st.fd_evals);
   for (int v = 0; v < V_NVERDICT; ++v) {
@@ -499,6 +501,7 @@ static void child_run(size_t k, int n, bool thorough, long long start) {
       if (!S.mine(t + (long long)k)) continue;
       if (n) sp.tuple(u, x);
       for (int i = 0; i < n; ++i) SHM->x[i] = x[i];
+      SHM->snap = st;
       SHM->tuple = t;
       run_tuple(f, n, ip, x, st);
       ++st.tuples;
@@ -585,6 +588,7 @@ static void explore_function(size_t k, int n, bool thorough, bool single) {
     std::string ctx = std::string("\"mode\":\"") + MODE[SHM->mode % 3] + "\",\"dig_cfg\":" + std::to_string(SHM->cfg) +
                       ",\"stage\":" + std::to_string(SHM->stage) + ",\"how\":\"" + how + "\"";
     if (t < 0) { R.broken("child for " + f.name + " died before the first tuple: " + how); emit_function(f, n); return; }
+    if (!single) { long long c = SHM->st.calls, e = SHM->st.fd_evals; SHM->st = SHM->snap; SHM->st.calls = c; SHM->st.fd_evals = e; }
     bool timeout = WIFSIGNALED(status) && WTERMSIG(status) == SIGVTALRM;
     if (timeout && !single) {
       std::printf("{\"type\":\"slow\",\"fn\":\"%s\",\"n\":%d,\"t\":%lld,\"point\":\"%s\",\"replay\":%s}\n",
@@ -595,6 +599,7 @@ static void explore_function(size_t k, int n, bool thorough, bool single) {
       viol(f, std::string("no return within ") + hs + " CPU", x, n, ctx);
     } else {
       viol(f, "abnormal termination (" + how + ")", x, n, ctx);
+      ++SHM->st.crashed;
     }
     R.stat("child_restarts");
     if (single) { emit_function(f, n); return; }
